@@ -526,6 +526,9 @@ def frame(R):
                         def __init__(s, n): s.n = n
                         def WriteTo(s, o): o.write(b'\\x2a' * s.n)
                         def Encode(s): return memoryview(b'\\x2a' * s.n)
+                    prev = getattr(W, {{sname}})()          # a section object holds what was added to IT: another section of this process is none of its business
+                    for n in (3, 5): getattr(prev, {{add}})(E(n))
+                    prev.WriteTo(io.BytesIO())
                     sec = getattr(W, {{sname}})()
                     sizes = {{sizes}}
                     for n in sizes: getattr(sec, {{add}})(E(n))
